@@ -616,6 +616,18 @@ def g_layouts(ctx, rng, i):
     polys = np.stack([sq * (j + 1) + gen.coords(rng, (dim,), 3, "int") for j in range(k)])
     pol = g.PolygonCollection(layout(hom(polys, rng.choice([1.0, 2.0, -1.0, 0.5], size=(k, 4, 1))), how))
     grid = g.PointCollection(layout(hom(gen.coords(rng, (k, m, dim), 4, "int").astype(float), rng.choice([1.0, 2.0, -2.0, 0.5], size=(k, m, 1))), how))
+    # degenerate positions that have an answer of their own: the first two arguments of a cross ratio coincide (value 1), parallel lines (angle 0)
+    pa = gen.coords(rng, (dim,), 4, "int").astype(float) + 0.5
+    dv = gen.nonzero_vec(rng, dim, 3).astype(float)
+    P_ = [g.Point(*(pa + t * dv)) for t in (0.0, 0.0, 1.0, 3.0)]
+    off_ = np.roll(dv, 1) * np.array([1, -1, 1][:dim]) + 0.25
+    lines_ = [g.Line(g.Point(*pa), g.Point(*(pa + dv))), g.Line(g.Point(*(pa + off_)), g.Point(*(pa + off_ + 2 * dv)))]
+    for step in (lambda: g.crossratio(*P_), lambda: g.crossratio(P_[2], P_[2].copy(), P_[0], P_[3]), lambda: g.angle(*lines_), lambda: g.angle(lines_[1], lines_[0]),
+                 lambda: g.crossratio(g.Line(1.5, 2.0, 3.0), g.Line(1.5, 2.0, 3.0), g.Line(1.0, 0.0, 1.0), g.Line(0.0, 1.0, 2.0)) if dim == 2 else None):
+        try:
+            step()
+        except Exception:
+            pass
     for step in (lambda: seg.contains(q), lambda: seg.midpoint, lambda: seg.length, lambda: pol.area, lambda: pol.contains(q) if dim == 2 else None,
                  lambda: grid + g.Point(*([1] * dim)), lambda: grid * 2, lambda: grid - grid, lambda: seg + g.Point(*([1] * dim)), lambda: g.dist(grid, g.Point(*([0] * dim)))):
         try:
